@@ -152,9 +152,9 @@ def _nest_of(spec, shape, d):
 # ------------------------------------------------------------------------------------------
 C01_OPS = ["ref", "ref", "ref", "refprefix", "stale", "append", "append", "extend", "setitem", "setitem_cp", "setitem_cp",
            "fiber_iadd_s", "fiber_imul_s", "fiber_iadd_f", "fiber_imul_f", "fiber_ilshift", "populate", "populate",
-           "iterref", "iterref", "updateCoords", "updatePayloads", "clear", "get"]
+           "iterref", "iterref", "updateCoords", "updatePayloads", "clear", "get", "insertlookup"]
 C02_OPS = ["ref", "ref", "ref", "refprefix", "refprefix", "get", "get", "populate", "populate", "populate", "iterref",
-           "iterref", "coiterref", "fiber_ilshift", "clear", "coiter_read", "coiter_read", "stale"]
+           "iterref", "coiterref", "fiber_ilshift", "clear", "coiter_read", "coiter_read", "stale", "insertlookup", "insertlookup"]
 
 
 def gen_ops(rng, init, n, alphabet, interior_removal=True):
@@ -173,6 +173,8 @@ def gen_ops(rng, init, n, alphabet, interior_removal=True):
             op.update(pt=pt[:rng.randint(1, max(1, depth - 1))] if depth > 1 else pt)
         elif kind == "get":
             op.update(pt=pt[:rng.randint(1, depth)], allocate=rng.random() < 0.6)
+        elif kind == "insertlookup":
+            op.update(c=rng.randint(0, 7), v=rng.choice([None, None, 3]), then=rng.choice([None, "insert", "ref"]), c2=rng.randint(0, 4))
         elif kind == "stale":
             op.update(k=rng.randrange(8), act=rng.choice(["set", "add", "mul", "default"]), v=rng.choice([1, 2, -3, 0]))
         elif kind == "append":
@@ -365,6 +367,22 @@ def apply_op(ctx, op):
         if c < 0:
             return "skip"
         f.append(c, v)
+        return
+    if kind == "insertlookup":
+        # the deprecated (still public) insert-or-lookup wrapper: a missing coordinate gets the level's default payload
+        import warnings
+        with warnings.catch_warnings():
+            warnings.simplefilter("ignore")
+            v = op["v"] if leaf else None
+            p = f.insertOrLookup(op["c"], v) if v is not None else f.insertOrLookup(op["c"])
+            H.quiescent("insertlookup:created", ctx)
+            if isinstance(p, Fiber) and op.get("then"):
+                if op["then"] == "insert" or ctx.is_leaf_level(lvl + 1) is False:
+                    q = p.insertOrLookup(op["c2"])
+                else:
+                    q = p.getPayloadRef(op["c2"])
+                if isinstance(q, Payload) and not isinstance(unbox(q), Fiber):
+                    q <<= 4
         return
     if kind == "extend":
         if not leaf:
